@@ -209,7 +209,7 @@ def fmt_term(t):
         return t[1].split("::")[-1]
     if h == "mem":
         b = fmt_term(t[1])
-        return t[2] if b == "this" else b + "." + t[2]
+        return ("this->" + t[2]) if b == "this" else b + "." + t[2]
     if h == "call":
         name = t[1].split("::")[-1]
         args = ", ".join(fmt_term(a) for a in t[3])
